@@ -85,6 +85,12 @@ func (ip *Interp) model2(fn *ssa.Function, name string, args []AV) (AV, bool) {
 	if r, ok := ip.modelStorage(fn, name, args); ok {
 		return r, true
 	}
+	if r, ok := ip.modelReflect(fn, name, args); ok {
+		return r, true
+	}
+	if r, ok := ip.modelParse(name, args); ok {
+		return r, true
+	}
 	s := func(i int) string { return avStr(args[i]) }
 	n := func(i int) int { return int(avInt(args[i])) }
 	switch name {
@@ -471,14 +477,6 @@ func (ip *Interp) modelStorage(fn *ssa.Function, name string, args []AV) (AV, bo
 	switch name {
 	case "github.com/go-spring/stdlib/flatten.NewStorage":
 		return &StorageV{S: flatten.NewStorage()}, true
-	case "(reflect.Value).Interface":
-		if rv, ok := args[0].(*ReflectV); ok {
-			return rv.V, true
-		}
-		ood("reflect.Value.Interface on %s", avString(args[0]))
-	case "(reflect.Value).IsValid":
-		_, ok := args[0].(*ReflectV)
-		return kBool(ok), true
 	}
 	if !strings.HasPrefix(name, "(*github.com/go-spring/stdlib/flatten.Storage).") {
 		return nil, false
@@ -508,6 +506,36 @@ func (ip *Interp) modelStorage(fn *ssa.Function, name string, args []AV) (AV, bo
 		return TupleV{strSlice(ip, ks), NilV{}}, true
 	case "Keys":
 		return strSlice(ip, st.S.Keys()), true
+	case "RawData":
+		// map[string]ValueInfo: a snapshot of the storage's leaves
+		mt := fn.Signature.Results().At(0).Type().Underlying().(*types.Map)
+		m := &MapV{M: map[string]AV{}}
+		for k, vi := range st.S.RawData() {
+			e := ip.zeroOf(mt.Elem()).(*StructV)
+			es := mt.Elem().Underlying().(*types.Struct)
+			for i := 0; i < es.NumFields(); i++ {
+				switch es.Field(i).Name() {
+				case "Value":
+					e.F[i] = kStr(vi.Value)
+				case "File":
+					e.F[i] = kInt(int64(vi.File))
+				}
+			}
+			qk := constant.MakeString(k).ExactString()
+			m.M[qk] = e
+			m.Keys = append(m.Keys, qk)
+		}
+		sort.Strings(m.Keys)
+		return m, true
+	case "Data":
+		m := &MapV{M: map[string]AV{}}
+		for k, v := range st.S.Data() {
+			qk := constant.MakeString(k).ExactString()
+			m.M[qk] = kStr(v)
+			m.Keys = append(m.Keys, qk)
+		}
+		sort.Strings(m.Keys)
+		return m, true
 	}
 	ood("flatten.Storage.%s", fn.Name())
 	return nil, false
